@@ -500,6 +500,43 @@ mut("C13", "entityuid-implicit-needs-only-type", ("types/entity_uid.go", '''	} e
 		}
 		return nil
 	}'''))
+# ---- C18
+mut("C18", "offset-not-advanced-on-refill", ("internal/parser/cedar_tokenize.go", '''			s.srcBufOffset += s.srcPos
+''', ''''''))
+mut("C18", "token-head-not-saved", ("internal/parser/cedar_tokenize.go", '''			if s.tokPos >= 0 {
+				s.tokBuf.Write(s.srcBuf[s.tokPos:s.srcPos])
+				s.tokPos = 0''', '''			if s.tokPos >= 0 {
+				s.tokPos = 0'''))
+mut("C18", "column-counts-bytes", ("internal/parser/cedar_tokenize.go", '''	// advance
+	s.srcPos += width
+	s.lastCharLen = width
+	s.column++''', '''	// advance
+	s.srcPos += width
+	s.lastCharLen = width
+	s.column += width'''))
+mut("C18", "data-with-eof-dropped", ("internal/parser/cedar_tokenize.go", '''			s.srcPos = 0
+			s.srcEnd = i + n''', '''			s.srcPos = 0
+			if err == io.EOF {
+				n = 0
+			}
+			s.srcEnd = i + n'''))
+mut("C18", "reader-error-swallowed-when-data-pending", ("internal/parser/cedar_tokenize.go", '''				if err != io.EOF {
+					s.error(err.Error())
+				}''', '''				if err != io.EOF && i+n == 0 {
+					s.error(err.Error())
+				}'''))
+mut("C18", "fullrune-check-dropped", ("internal/parser/cedar_tokenize.go", '''		for s.srcPos+utf8.UTFMax > s.srcEnd && !utf8.FullRune(s.srcBuf[s.srcPos:s.srcEnd]) {''', '''		for s.srcPos+1 > s.srcEnd {'''))
+mut("C18", "filename-not-in-diagnostics", ("authorize.go", '''			forbids = append(forbids, DiagnosticReason{PolicyID: id, Position: po.Position()})''', '''			forbids = append(forbids, DiagnosticReason{PolicyID: id, Position: Position{Offset: po.Position().Offset, Line: po.Position().Line, Column: po.Position().Column}})'''))
+mut("C18", "line-after-cr", ("internal/parser/cedar_tokenize.go", '''	case '\\n':
+		s.line++
+		s.lastLineLen = s.column
+		s.column = 0
+	}''', '''	case '\\n', '\\r':
+		s.line++
+		s.lastLineLen = s.column
+		s.column = 0
+	}'''))
+
 # ---- C20
 mut("C20", "unmarshal-merges", ("policy_set.go", """	*p = PolicySet{
 		policies: make(PolicyMap, len(jsonPolicySet.StaticPolicies)),
